@@ -356,8 +356,12 @@ func c09Jobs(tier string) []Job {
 	for _, maxCost := range []int64{3, 5} {
 		for n := 1; n <= maxRes; n++ {
 			order := "perm"
-			if n >= 5 || (quick && n >= 4) {
-				order = "rot" // quick: all permutations up to 3 residents, rotations for 4
+			if n >= 5 {
+				order = "rot"
+			}
+			maxFreq := maxFreq
+			if quick && n >= 4 {
+				maxFreq = 1 // quick: 4 residents with all 24 map orders but Get counts 0-1 only
 			}
 			// cost assignments in {1,2}^n that fit
 			for cm := 0; cm < 1<<n; cm++ {
